@@ -120,9 +120,13 @@ func (c *Ctx) expandD(atoms []Atom, e *env, depth int) []Atom {
 		if !s.ok {
 			continue
 		}
+		ae := e
+		if ae == nil && a.Env != nil {
+			ae = a.Env
+		}
 		var args []string
 		for _, v := range a.Args {
-			args = append(args, c.key(v, e))
+			args = append(args, c.key(v, ae))
 		}
 		src := s.True
 		if !a.Pos {
